@@ -312,3 +312,29 @@ mod minicbor_model {
         assert!(matches!(head_at_exec(&o[..k], 0), Some((m, info, x, n)) if m == major && info <= 27 && x == v && n == k));
     }
 }
+
+/// Bounded stand-in for C02 (fallback for the Verus unit C02_flat_decoder): the real flat decoder's word-based readers on every
+/// buffer of at most 13 bytes, after 0..7 single-bit reads: no panic (Kani checks arithmetic overflow, shift overflow, indexing),
+/// every result is Ok or Err.
+#[cfg(kani)]
+mod c02 {
+    use pallas_codec::flat::de::Decoder;
+
+    #[kani::proof]
+    #[kani::unwind(16)]
+    fn c02_word_readers_total_bounded() {
+        let buf: [u8; 13] = kani::any();
+        let len: usize = kani::any();
+        let pre: u8 = kani::any();
+        let which: u8 = kani::any();
+        kani::assume(len <= 13 && pre < 8);
+        let mut d = Decoder::new(&buf[..len]);
+        let mut k = 0u8;
+        while k < 8 { if k < pre { let _ = d.bool(); } k += 1; }
+        match which % 3 {
+            0 => { let _ = d.word(); }
+            1 => { let _ = d.integer(); }
+            _ => { let _ = d.char(); }
+        }
+    }
+}
